@@ -1,5 +1,6 @@
 import PgBifrost.Proofs.Kafka
 import PgBifrost.Gen.Consts
+import PgBifrost.Gen.KafkaSrc
 /-!
 # C14 — Kafka: written only on full producer success, otherwise fail-stop
 
@@ -181,5 +182,20 @@ example :
       = .viol "dropped-message-not-counted" ∧
     -- rejection without fail-stop
     check c 0 ms b.msgs b.core.txns (some b.msgs) (.rejected []) none false = .viol "no-fail-stop" := by decide
+
+/-! ## the worker's iteration IS the source's (translator `tools/factgen/kafkatr.go`, regenerated every run) -/
+
+/-- `sendBatchToKafka` and the loop body of `StartTransporting`, translated statement by statement in source
+order, compute the model's `processBatch` for every batch and everything the world can do with it: the
+duration stat precedes the error test, the error test precedes the cancellation test, and the written stat and
+the hand-over of the batch's transactions to the progress channel come only after both. -/
+theorem kafka_iteration_as_in_source (j : Job) : PgBifrost.Gen.KafkaSrc.iteration j = processBatch j := by
+  obtain ⟨payload, txns, out⟩ := j
+  cases out with
+  | accepted => rfl
+  | rejected idxs => rfl
+  | otherError => rfl
+  | cancelled atLoop => cases atLoop <;> rfl
+
 
 end PgBifrost.Props.C14
